@@ -1,7 +1,8 @@
 ------------------------------ MODULE ExecImpl ------------------------------
 (* C04 - IMPLEMENTATION-SHAPED LEVEL.  A small-step machine that mirrors how neo-go executes a transaction:
 
-     ist      the VM invocation stack (pkg/vm: Context; contexts created by CALL share the script context "sc")
+     ist      the VM invocation stack (pkg/vm: Context; contexts created by CALL share the script context "sc",
+              named here by the stack position of its first context)
               every context has its own stack of exception handlers (TRY entries: state try / catch / fin)
      layers   the stack of private DAO layers (dao.Simple.GetPrivate): an overlay of written storage slots and a
               lazily made copy of the native contract cache (dao.go getCache / persistNativeCache)
@@ -219,8 +220,7 @@ Open(M, lb) ==
             ELSE LET f == E!AndF(t.fl, lb.fl)
                      w == Wrapped(M.ist, f)
                  IN  [Into(M0, "body") EXCEPT
-                        !.ist = Append(@, NewCtx(M.nsc, lb.c, f, "method", w, Len(M.notes), FALSE, M.cur)),
-                        !.nsc = @ + 1,
+                        !.ist = Append(@, NewCtx(Len(M.ist) + 1, lb.c, f, "method", w, Len(M.notes), FALSE, M.cur)),
                         !.layers = IF w THEN Append(@, EmptyLayer) ELSE @,
                         !.rsnap = Append(@, M.ref)]
       [] lb.k = "pay" ->             \* GAS.transfer to a contract: native context, then its onNEP17Payment callback
@@ -230,7 +230,7 @@ Open(M, lb) ==
             IF ~(me >= 0 /\ E!HasAll(t.fl, 15)) THEN Fault(M0)
             ELSE LET w  == Wrapped(M.ist, 15)
                      M1 == [Into(M0, "body") EXCEPT
-                              !.ist = Append(@, NewCtx(M.nsc, -2, 15, "native", w, Len(M.notes), FALSE, M.cur)),
+                              !.ist = Append(@, NewCtx(Len(M.ist) + 1, -2, 15, "native", w, Len(M.notes), FALSE, M.cur)),
                               !.layers = IF w THEN Append(@, EmptyLayer) ELSE @,
                               !.rsnap = Append(@, M.ref)]
                      b1 == Vis(M1, SlotBal(me))
@@ -241,8 +241,7 @@ Open(M, lb) ==
                      r1 == [M3.ref EXCEPT !.st[SlotBal(me)] = @ - lb.amt]
                      r2 == [r1 EXCEPT !.st[SlotBal(lb.c)] = @ + lb.amt, !.notes = Append(@, nt)]
                  IN  [M3 EXCEPT !.notes = Append(@, nt), !.ref = r2,
-                                !.ist = Append(@, NewCtx(M.nsc + 1, lb.c, 15, "cb", FALSE, Len(M.notes) + 1, TRUE, M.cur)),
-                                !.nsc = @ + 2,
+                                !.ist = Append(@, NewCtx(Len(M.ist) + 2, lb.c, 15, "cb", FALSE, Len(M.notes) + 1, TRUE, M.cur)),
                                 !.rsnap = Append(@, r2)]
 
 Step(M, lb) ==
@@ -282,12 +281,12 @@ Labels(M) ==
 \* ---------------------------------------------------------------- specification
 VARIABLE m
 
-M0 == [ist |-> << NewCtx(0, -1, 15, "entry", FALSE, 0, FALSE, <<>>) >>,
+M0 == [ist |-> << NewCtx(1, -1, 15, "entry", FALSE, 0, FALSE, <<>>) >>,
        layers |-> << EmptyLayer >>,
        base |-> [st |-> BaseStore, nc |-> N0],
        notes |-> <<>>, pend |-> FALSE, status |-> "run",
        ref |-> [st |-> BaseStore, nset |-> N0, notes |-> <<>>], rsnap |-> <<>>,
-       nsc |-> 1, steps |-> 0, tree |-> <<>>, cur |-> <<>>]
+       steps |-> 0, tree |-> <<>>, cur |-> <<>>]
 
 Init == m = M0
 Next == /\ m.status = "run"
